@@ -218,7 +218,8 @@ _TRANS = {
     "C13": (["Gws.Props.TransFrame", "Gws.Props.TransReader", "Gws.Props.TransParse", "Gws.Props.TransFragment", "Gws.Props.TransNego", "Gws.Props.TransLimited"],
             _TF + _TR + _TP + _TL + ["TransEquiv.limitedReader_Read_eq", "TransEquiv.copy_step_eq"]),
     "C15": (["Gws.Props.TransQueue"], ["TransEquiv.getJob_eq"]),
-    "C05": (["Gws.Props.TransFrame", "Gws.Props.TransClose"], ["TransEquiv.SetLength_eq", "TransEquiv.GenerateHeader_eq", "TransEquiv.local_close_body_eq"]),
+    "C05": (["Gws.Props.TransFrame", "Gws.Props.TransClose", "Gws.Props.TransWriter"],
+            ["TransEquiv.SetLength_eq", "TransEquiv.GenerateHeader_eq", "TransEquiv.local_close_body_eq", "TransEquiv.genFrame_eq"]),
     "C06": (["Gws.Props.TransClose"], _TC),
     "C16": (["Gws.Props.TransClose"], ["TransEquiv.CheckEncoding_eq", "TransEquiv.emitClose_body_eq"]),
     "C12": (["Gws.Props.TransNego"], _TN),
